@@ -1446,7 +1446,12 @@ def _chain_selectors(rng, m, rounds):
         elif t == 1:
             sels.append(("shuffle", "", ["shuffle"], ("shuffle", ms)))
         else:
-            sels.append(("bootstrap", "default-n", ["bootstrap"], ("bootstrap", ms)))
+            if rng.random() < 0.5:
+                sels.append(("bootstrap", "default-n", ["bootstrap"], ("bootstrap", ms)))
+            else:
+                # more draws than records: some record is certainly drawn twice; fewer: a strict sub-multiset
+                kb = rng.choice([1, max(1, m // 2), m + 3, 2 * m + 1])
+                sels.append(("bootstrap", "-n", ["bootstrap", "-n", str(kb)], ("bootstrap", kb, ms)))
         pi = rng.randrange(len(CHAIN_PREDS))
         sels.append(("filter", "plain", ["filter", CHAIN_PREDS[pi][0]], ("filter", pi, False)))
         sels.append(("filter", "-x", ["filter", "-x", CHAIN_PREDS[pi][0]], ("filter", pi, True)))
@@ -1477,6 +1482,28 @@ def _chain_model(spec, urecs):
         f = CHAIN_PREDS[spec[1]][1]
         return [[i for i, x in enumerate(urecs) if f(dict(x)) != spec[2]]]
     return None
+
+
+def _mut_catn(j, rec):
+    return [("zzidx", str(j + 1))] + rec
+
+
+def _mut_dotx(j, rec):
+    if any(k == "k" for k, _ in rec):
+        return [(k, v + "x" if k == "k" else v) for k, v in rec]
+    return rec + [("k", "x")]
+
+
+def _mut_newfield(j, rec):
+    return rec + [("zzn", str(len(rec)))]
+
+
+# verbs that change the records they receive IN PLACE and not idempotently (a counter, an append, a width)
+_DOWNSTREAM = [
+    ("cat-n", ["cat", "-n", "-N", "zzidx"], _mut_catn),
+    ("put-append", ["put", '$k = $k . "x"'], _mut_dotx),
+    ("put-width", ["put", "$zzn = NF"], _mut_newfield),
+]
 
 
 def chain_case(case):
@@ -1563,10 +1590,12 @@ def chain_case(case):
                               f"mlr {' '.join(full)}: {len(got)} records out, not a permutation of the {m} records the selector received",
                               dict(det, got=got[:40]))
         elif spec[0] == "bootstrap":
-            if len(got) != m:
+            expn = spec[1] if len(spec) == 3 else m
+            if len(got) != (expn if m else 0):
                 ok = False
                 add_violation(res, dict(sig, kind="count"),
-                              f"mlr {' '.join(full)}: {len(got)} records out, the selector received {m}", dict(det, got=got[:40]))
+                              f"mlr {' '.join(full)}: {len(got)} records out, the selector received {m}"
+                              + (f" and was asked for {expn}" if len(spec) == 3 else ""), dict(det, got=got[:40]))
         else:
             cands = _chain_model(spec, urecs)
             exps = [[ulines[i] for i in c] for c in cands]
@@ -1585,6 +1614,33 @@ def chain_case(case):
             bump(res, "chain_checked")
             if m > 1 and (0 < len(got) < m or (len(got) == m and got != ulines)):
                 ntk.append(_h("chain", up, sargv, n, b, case["seed"]))
+        # downstream monitor: "only select" also means the records handed on are independent of one another and of
+        # whatever the selector keeps. A verb that changes records in place, put BEHIND the selector, must give exactly
+        # that change applied to the selector's own output (same --seed, so the same selection) - a selector that hands
+        # on one record object twice (or keeps a reference it re-emits) shows as a record changed twice / numbered wrongly.
+        if ok and got:
+            muts = list(_DOWNSTREAM) if spec[0] in ("sample", "shuffle", "bootstrap") else [_DOWNSTREAM[rng.randrange(len(_DOWNSTREAM))]]
+            for mname, margv, mfun in muts:
+                full2 = mpre + (upv + ["then"] if upv else []) + sargv + ["then"] + margv + fargs
+                sig2 = dict(sig, downstream=mname)
+                r2 = _run(full2, stdin, res, {"sigbase": sig2, "n": n, "files": files}, files=files)
+                res["evals"] += 1
+                if r2 is None:
+                    continue
+                got2 = split_out(r2.stdout)
+                exp2 = [line_of(mfun(j, _parse_line(l))) for j, l in enumerate(got)]
+                if got2 != exp2:
+                    p_ = 0
+                    while p_ < len(got2) and p_ < len(exp2) and got2[p_] == exp2[p_]:
+                        p_ += 1
+                    add_violation(res, dict(sig2, kind="downstream-not-independent"),
+                                  f"mlr {' '.join(full2)}: differs from `{' '.join(margv)}` applied to the output of the same command without it; "
+                                  f"first difference at record {p_ + 1}: got {got2[p_][:80] if p_ < len(got2) else '<eof>'!r}, "
+                                  f"expected {exp2[p_][:80] if p_ < len(exp2) else '<eof>'!r} (records handed on by the selector share state)",
+                                  dict(det, argv=full2, argv_without_downstream=full, expected=exp2[:40], got=got2[:40]))
+                else:
+                    bump(res, "chain_downstream_checked")
+                    bump(res, "chain_downstream:" + mname)
     res["nontrivial_keys"] = ntk
     res["nontrivial"] = bool(ntk)
     res["sample"] = {"monitor": "chain", "upstream": upv, "n_records": n, "upstream_out": m}
